@@ -85,7 +85,9 @@ def run_history(program, history, solver_kw=None, choices=None, leaves=None, unk
     kw = dict(solver_kw or {})
     kw.setdefault("max_time", 30)
     obs = []
-    with boot.quiet(capture=True) as buf:
+    import contextlib
+    fd2 = boot.no_fd2() if kw.get("debug") else contextlib.nullcontext()
+    with fd2, boot.quiet(capture=True) as buf:
         solver = ps.SchedulingSolver(problem=built.pb, **kw)
         cands = None
         if steer and leaves is not None:
